@@ -299,6 +299,7 @@ func (s *server) ModifyColumnFamilies(ctx context.Context, req *btapb.ModifyColu
 		}
 	}
 
+	var dropped []string
 	for _, mod := range req.Modifications {
 		if create := mod.GetCreate(); create != nil {
 			if _, ok := cfs[mod.Id]; ok {
@@ -312,15 +313,7 @@ func (s *server) ModifyColumnFamilies(ctx context.Context, req *btapb.ModifyColu
 				return nil, fmt.Errorf("can't delete unknown family %q", mod.Id)
 			}
 			delete(cfs, mod.Id)
-
-			// Purge all data for this column family
-			tbl.rows.Ascend(func(r *btpb.Row) bool {
-				r, changed := scrubRow(r, tbl.cols())
-				if changed {
-					tbl.rows.ReplaceOrInsert(r)
-				}
-				return true
-			})
+			dropped = append(dropped, mod.Id)
 		} else if modify := mod.GetUpdate(); modify != nil {
 			cf, ok := cfs[mod.Id]
 			if !ok {
@@ -332,7 +325,26 @@ func (s *server) ModifyColumnFamilies(ctx context.Context, req *btapb.ModifyColu
 		}
 	}
 
+	// Persist the new definition before purging the data of dropped families: a crash in
+	// between then leaves cells of a family that no longer exists (they are never served)
+	// rather than a family that lost its data.
 	s.storage.SetTableMeta(tbl.def)
+	if len(dropped) > 0 {
+		keep := make(map[string]*btapb.ColumnFamily, len(cfs))
+		for id, cf := range cfs {
+			keep[id] = cf
+		}
+		for _, id := range dropped {
+			delete(keep, id) // also when the family was re-created by a later modification
+		}
+		tbl.rows.Ascend(func(r *btpb.Row) bool {
+			r, changed := scrubRow(r, keep)
+			if changed {
+				tbl.rows.ReplaceOrInsert(r)
+			}
+			return true
+		})
+	}
 	return proto.Clone(tbl.def).(*btapb.Table), nil
 }
 
